@@ -302,7 +302,9 @@ func c19(r *rt.Run) {
 	for b := 0; b < 0x80; b++ {
 		addC(ast.String(string([]byte{byte(b)})), "string")
 	}
-	for _, s := range []string{"a\"b", "\\", "\\n", "a\nb", "a\r\nb", "é", "😀", " ", "/a", "%41", "a b", "", "\x00x", "'", "`"} {
+	for _, s := range []string{"a\"b", "\\", "\\n", "a\nb", "a\r\nb", "é", "😀", " ", "/a", "%41", "a b", "", "\x00x", "'", "`",
+		// code points at the edges of the encoding forms and those that decoders treat specially
+		"\ufffd", "x\ufffdy", "\ufffc", "\ufffe", "\uffff", "\u0080", "\u07ff", "\u0800", "\ud7ff", "\ue000", "\U00010000", "\U0010ffff", "\u2028", "\u2029", "\u0085", "\ufeff", "\u200b", "a\u0301"} {
 		addC(ast.String(s), "string")
 	}
 	for b := 0; b < 256; b += 1 {
